@@ -1,13 +1,30 @@
 //! Native replay: runs one harness body on the real code with the values of a Kani counterexample.
 //! usage: replay <crate> <harness> <hex>,<hex>,...   (one little-endian byte vector per kani::any call)
 //! exit 0 = no failure reproduced, 1 = a check failed or the code panicked, 2 = usage / invalid replay
-use pv::sup::RSrc;
+//! Built with RUSTFLAGS="--cfg precis_verif" so that the in-crate hooks of /repo export their dispatchers.
+#[allow(unused_extern_crates)]
+extern crate precis_profiles;
+#[allow(unused_extern_crates)]
+extern crate precis_tools;
 
-fn dispatch(krate: &str, name: &str, src: &mut RSrc) -> bool {
-    match krate {
-        "ext" => pv::dispatch(name, src),
-        _ => false,
-    }
+type Out = (bool, Vec<String>, Vec<String>, Vec<String>, bool, bool);
+
+extern "Rust" {
+    fn pv_profiles_replay(name: &str, vals: Vec<Vec<u8>>) -> Out;
+    fn pv_tools_replay(name: &str, vals: Vec<Vec<u8>>) -> Out;
+}
+
+fn run_ext(name: &str, vals: Vec<Vec<u8>>) -> Out {
+    let mut src = pv::sup::RSrc::new(vals);
+    let found = pv::dispatch(name, &mut src);
+    (
+        found,
+        src.failed.iter().map(|s| s.to_string()).collect(),
+        src.covered.iter().map(|s| s.to_string()).collect(),
+        src.notes.clone(),
+        src.assume_violated,
+        src.exhausted,
+    )
 }
 
 fn main() {
@@ -19,23 +36,20 @@ fn main() {
     let vals: Vec<Vec<u8>> = if args.len() > 3 && !args[3].is_empty() {
         args[3]
             .split(',')
-            .map(|h| {
-                (0..h.len() / 2)
-                    .map(|i| u8::from_str_radix(&h[2 * i..2 * i + 2], 16).unwrap())
-                    .collect()
-            })
+            .map(|h| (0..h.len() / 2).map(|i| u8::from_str_radix(&h[2 * i..2 * i + 2], 16).unwrap()).collect())
             .collect()
     } else {
         Vec::new()
     };
-    let mut src = RSrc::new(vals);
     let krate = args[1].clone();
     let name = args[2].clone();
     std::panic::set_hook(Box::new(|_| {}));
-    let res = std::panic::catch_unwind(std::panic::AssertUnwindSafe(|| dispatch(&krate, &name, &mut src)));
-    for n in &src.notes {
-        println!("REPLAY input: {}", n);
-    }
+    let res = std::panic::catch_unwind(std::panic::AssertUnwindSafe(|| match krate.as_str() {
+        "ext" => run_ext(&name, vals),
+        "profiles" => unsafe { pv_profiles_replay(&name, vals) },
+        "tools" => unsafe { pv_tools_replay(&name, vals) },
+        _ => (false, vec![], vec![], vec![], false, false),
+    }));
     match res {
         Err(e) => {
             let msg = if let Some(s) = e.downcast_ref::<&str>() {
@@ -48,25 +62,29 @@ fn main() {
             println!("REPLAY panic: {}", msg);
             std::process::exit(1);
         }
-        Ok(false) => {
-            eprintln!("unknown harness {}", name);
-            std::process::exit(2);
+        Ok((found, failed, covered, notes, assume_violated, exhausted)) => {
+            if !found {
+                eprintln!("unknown harness {}/{}", krate, name);
+                std::process::exit(2);
+            }
+            for n in &notes {
+                println!("REPLAY input: {}", n);
+            }
+            if assume_violated || exhausted {
+                println!("REPLAY invalid: assume_violated={} exhausted={}", assume_violated, exhausted);
+                std::process::exit(2);
+            }
+            for c in &covered {
+                println!("REPLAY covered: {}", c);
+            }
+            if failed.is_empty() {
+                println!("REPLAY ok: no check failed");
+                std::process::exit(0);
+            }
+            for f in &failed {
+                println!("REPLAY failed: {}", f);
+            }
+            std::process::exit(1);
         }
-        Ok(true) => {}
     }
-    if src.assume_violated || src.exhausted {
-        println!("REPLAY invalid: assume_violated={} exhausted={}", src.assume_violated, src.exhausted);
-        std::process::exit(2);
-    }
-    for c in &src.covered {
-        println!("REPLAY covered: {}", c);
-    }
-    if src.failed.is_empty() {
-        println!("REPLAY ok: no check failed");
-        std::process::exit(0);
-    }
-    for f in &src.failed {
-        println!("REPLAY failed: {}", f);
-    }
-    std::process::exit(1);
 }
